@@ -89,32 +89,34 @@ theorem managed_conns_are_a_notification_list (s : St) (cs : List MConn) (acts :
     (mrun (s, cs) acts).1 = runI s (deliveries cs acts) :=
   mrun_eq acts s cs
 
-/-- …and each of those notifications pairs a session (key, permanent key, salt) confirmed on ONE
-connection with THAT connection's config: the `ThisDC` its own server reported (CDN mode: the DC
-it was dialled to), and goes to the handler of that connection's mode. -/
-theorem conn_pairs_session_with_its_config (cs : List MConn) (a : MAct) (n : Notif)
-    (hn : n ∈ (mstep cs a).2) :
-    ∃ id c, cs[id]? = some c ∧ n.kind = (if c.cdn then .cdn else .regular) ∧
-      ((∃ e, a = .ev id e ∧ c.cfg = some n.cfgDC) ∨
-       (∃ sd, a = .init id sd ∧ n.cfgDC = (if c.cdn then c.dc else sd))) ∧
-      ∃ e, (e ∈ c.pending ∨ a = .ev id e) ∧ n.key = e.key ∧ n.permKey = e.perm ∧ n.salt = e.salt :=
-  mstep_delivery cs a n hn
+/-- …and each of those notifications pairs a session confirmed on ONE connection with THAT
+connection's config — the `ThisDC` its own server reported, or the DC a CDN connection was dialled
+to — and goes to the handler of that connection's mode.  For ANY list of connection actions:
+connections created, sessions confirmed before the config is known, while the `Setup` callback
+runs, or afterwards, in any interleaving across connections.  The order of the steps of
+`Conn.init` (config obtained, `Setup`, `c.cfg` assigned, readiness signalled, flush) is read from
+the source on every run and interpreted; the proof needs readiness to come after the assignment. -/
+theorem conn_pairs_session_with_its_config (acts : List MAct) (n : Notif) (hn : n ∈ deliveries [] acts) :
+    ∃ cdn dc serverDC, MAct.new cdn dc serverDC ∈ acts ∧
+      n.cfgDC = (if cdn then dc else serverDC) ∧ n.kind = (if cdn then .cdn else .regular) ∧ n.fault = .none := by
+  obtain ⟨cdn, dc, sdc, hm, h⟩ := deliveries_ok acts [] (by intro c hc; cases hc) n hn
+  rcases hm with hm | hm
+  · simp at hm
+  · exact ⟨cdn, dc, sdc, hm, h⟩
 
-/-- Nothing is handed over before the connection's config is known (sessions are buffered), and
-the config's arrival hands over exactly the buffered sessions in arrival order. -/
-theorem conn_buffers_until_config (cs : List MConn) (id : Nat) (c : MConn) (e : SessEv) (sd : Int)
-    (hc : cs[id]? = some c) :
-    (c.cfg = none → (mstep cs (.ev id e)).2 = []) ∧
-      (mstep cs (.init id sd)).2 = c.pending.map (notifOf c (if c.cdn then c.dc else sd)) :=
-  ⟨fun h => (mstep_buffers cs id c e hc h).1, mstep_init cs id c sd hc⟩
+/-- Invariant behind it: no connection is ever "ready" (so that `OnSession` flushes at once) before
+its `c.cfg` holds its own config. -/
+theorem conn_never_ready_before_config (cs : List MConn) (a : MAct) (hok : AllOK cs) :
+    AllOK (mstep cs a).1 ∧ ∀ c ∈ (mstep cs a).1, c.ready = true → c.cfg = c.ownDC := by
+  have h1 := (mstep_ok cs a hok).1
+  exact ⟨h1, fun c hc hr => (h1 c hc).ready_cfg hr⟩
 
-/-- The connection layer is the one in the source (regenerated, structurally classified statement
-lists of `Conn.OnSession`, `flushPendingSession` and both branches of `init`). -/
+/-- `Conn.OnSession` and `flushPendingSession` are the modelled ones (regenerated, structurally
+classified statement lists): buffer, return while the config is not ready, else flush; the flush
+copies and clears `pending` and reads `c.cfg` in one critical section and delivers in order. -/
 theorem conn_layer_is_modelled :
     Facts.C30.connOnSession = ["buffer", "wait-config", "flush"] ∧
-    Facts.C30.connFlush = ["lock", "copy", "read-cfg", "clear", "unlock", "deliver-each(cfg,s)"] ∧
-    Facts.C30.connInitCDN = ["cfg=this-dc(conn.dc)", "ready", "flush"] ∧
-    Facts.C30.connInitRegular = ["cfg<-server", "cfg=server", "ready", "flush"] := by
+    Facts.C30.connFlush = ["lock", "copy", "read-cfg", "clear", "unlock", "deliver-each(cfg,s)"] := by
   decide
 
 /-- A client whose primary DC is `p ≠ 0` only ever stores sessions of DC `p`, whatever arrives
@@ -249,11 +251,12 @@ private def acts : List Act :=
 example : (crunI (cinit s2) acts).st.stored = some ⟨2, [1, 1], [1], 22, ""⟩ ∧
     (crunI (cinit s2) acts).st.session.dc = 4 := by decide
 
-/-- Connection layer: a session confirmed before the config is known is buffered and delivered
-with the config that arrives later; a foreign connection's session is delivered with ITS DC and
-ignored by the client. -/
+/-- Connection layer: sessions confirmed before the config is known and while the `Setup` callback
+runs are buffered and delivered with the connection's own config; a foreign connection's session
+is delivered with ITS DC and ignored by the client. -/
 private def macts : List MAct :=
-  [.new false 2, .new false 4, .ev 1 ⟨k 4, zeroKey, 44⟩, .ev 0 ⟨k 1, k 7, 22⟩, .init 1 4, .init 0 2]
+  [.new false 2 2, .new false 4 4, .ev 1 ⟨k 4, zeroKey, 44⟩, .initBegin 0, .ev 0 ⟨k 1, k 7, 22⟩, .initBegin 1,
+   .initEnd 1, .initEnd 0]
 
 example : deliveries [] macts =
     [⟨.regular, 4, k 4, zeroKey, 44, .none⟩, ⟨.regular, 2, k 1, k 7, 22, .none⟩] := by decide
